@@ -207,6 +207,21 @@ def run(S, tier, rep):
             if "key" in o:
                 o["key"] = o["key"].replace("C06.", "C07.conserve.")
             rep.obligations.append(o)
+    # through the forcing class, the spread must land in (accumulate into) the very array the caller handed in: the effect
+    # classification of C10.e, recorded here as the "accumulates into the target field" clause
+    from ..report import Report as _R
+    from .c10 import check_instance
+    tmp2 = _R("C07", "other")
+    for dim_ in (2, 3):
+        for reset_ in (True, False):
+            check_instance(S, dim_, reset_, tmp2)
+    for o in tmp2.obligations:
+        if o["rule"] in ("C10.e",) or (o["rule"] == "C10.f" and "view of the caller" in o["instance"]):
+            o = dict(o, rule="C07.target")
+            if "key" in o:
+                o["key"] = o["key"].replace("C10.", "C07.target.")
+            rep.obligations.append(o)
+    rep.require_min("C07.target", 8)
     # "successive calls add up" holds only if the accumulate / reset option the user chose is the one the forcing object runs
     from .c10 import wrappers_forward_options
     wrappers_forward_options(S, rep, rule="C07.w")
